@@ -78,7 +78,7 @@ func remoteFn(c vkit.Call) vkit.Reply {
 		rep.Header["Cache-Control"] = "max-age=60"
 
 		if c.Method == "GET" {
-			rep.Header["Vary"] = "X-Tenant, Cookie, X-From-Output, X-Values, X-Static-0"
+			rep.Header["Vary"] = "X-Tenant, Cookie, X-From-Output, X-Values, X-Static-0, X-Attrs"
 		}
 	}
 
@@ -104,11 +104,24 @@ func remoteAnswer(c vkit.Call) vkit.Reply {
 			level = 7
 		}
 
+		if strings.Contains(string(c.Body), "answer-as-yaml") {
+			// (the same answer in the other structured format heimdall understands)
+			return vkit.Reply{Status: 200, Header: map[string]string{"Content-Type": "application/yaml", "X-Remote-Echo": echo},
+				Body: []byte(fmt.Sprintf("echo: %q\nlevel: %d\n", echo, level))}
+		}
+
 		raw, _ := json.Marshal(map[string]any{"echo": echo, "level": level})
 
 		return vkit.Reply{Status: 200, Header: map[string]string{"Content-Type": "application/json", "X-Remote-Echo": echo}, Body: raw}
 	case strings.HasPrefix(c.Path, "/jwks"):
 		return vkit.JSONReply(200, jwksWithCertificate())
+	case strings.HasPrefix(c.Path, "/whoami-attrs"):
+		// the same subject id with attributes which differ in where nested elements end, or in the type of a value
+		if answer, ok := attributeVariants[c.Header.Get("X-Variant")]; ok {
+			return vkit.JSONReply(200, []byte(answer))
+		}
+
+		return vkit.Reply{Status: 401}
 	case strings.HasPrefix(c.Path, "/whoami"):
 		if c.Header.Get("X-Session") == "" {
 			return vkit.Reply{Status: 401}
@@ -138,6 +151,15 @@ func remoteAnswer(c vkit.Call) vkit.Reply {
 	}
 
 	return vkit.Reply{Status: 404}
+}
+
+var attributeVariants = map[string]string{
+	"1a": `{"id":"alice","attrs":{"groups":["admin","audit"]}}`, "1b": `{"id":"alice","attrs":{"groups":["admin audit"]}}`,
+	"2a": `{"id":"alice","attrs":{"m":{"a":"1 b:2"}}}`, "2b": `{"id":"alice","attrs":{"m":{"a":"1","b":"2"}}}`,
+	"3a": `{"id":"alice","attrs":{"n":"1"}}`, "3b": `{"id":"alice","attrs":{"n":1}}`,
+	"4a": `{"id":"alice","attrs":{"l":"[a]"}}`, "4b": `{"id":"alice","attrs":{"l":["a"]}}`,
+	"5a": `{"id":"alice","attrs":{"z":"<nil>"}}`, "5b": `{"id":"alice","attrs":{"z":null}}`,
+	"6a": `{"id":"alice","attrs":{"x":"1","y":["2"]}}`, "6b": `{"id":"alice","attrs":{"x":["1"],"y":"2"}}`,
 }
 
 func basicAuth(h string) (string, string, bool) {
@@ -386,6 +408,45 @@ func genHeaders(t *rapid.T, n int) map[string]any {
 	return out
 }
 
+// shiftedEndpoints returns two copies of an endpoint's configuration which differ in one pair of neighbouring settings
+// only, the end of the first continued by the second being the same text in both.
+func shiftedEndpoints(t *rapid.T, ep map[string]any) (map[string]any, map[string]any, string) {
+	cp := func() map[string]any {
+		out := map[string]any{}
+		for k, v := range ep {
+			out[k] = v
+		}
+
+		hdrs := map[string]any{}
+		if have, ok := ep["headers"].(map[string]any); ok {
+			for k, v := range have {
+				hdrs[k] = v
+			}
+		}
+
+		out["headers"] = hdrs
+
+		return out
+	}
+
+	a, b := cp(), cp()
+	what := rapid.SampledFrom([]string{"header name/value", "basic auth user/password", "api key name/value"}).Draw(t, "shiftedEndpointSetting")
+
+	switch what {
+	case "header name/value":
+		a["headers"].(map[string]any)["X-Shift-A"] = "bc"
+		b["headers"].(map[string]any)["X-Shift-Ab"] = "c"
+	case "basic auth user/password":
+		a["auth"] = map[string]any{"type": "basic_auth", "config": map[string]any{"user": "ab", "password": "c"}}
+		b["auth"] = map[string]any{"type": "basic_auth", "config": map[string]any{"user": "a", "password": "bc"}}
+	default:
+		a["auth"] = map[string]any{"type": "api_key", "config": map[string]any{"in": "header", "name": "X-Key-A", "value": "bc"}}
+		b["auth"] = map[string]any{"type": "api_key", "config": map[string]any{"in": "header", "name": "X-Key-Ab", "value": "c"}}
+	}
+
+	return a, b, what
+}
+
 // remote authorizer and generic contextualizer share the shape: endpoint headers, values, payload, subject
 func genSubjectHandlerCase(t *rapid.T, family string) caseSpec {
 	kindName, typ, remotePath := "authorizer", "remote", "/authz"
@@ -425,9 +486,23 @@ func genSubjectHandlerCase(t *rapid.T, family string) caseSpec {
 		pc["forward_response_headers_to_upstream"] = []any{"X-Remote-Echo"}
 	}
 
-	// the remote system may answer without any body
-	if rapid.IntRange(0, 3).Draw(t, "answerWithoutBody") == 0 {
+	yamlAnswer := false
+
+	// the remote system may answer without any body, or in YAML
+	switch rapid.IntRange(0, 5).Draw(t, "answerWithoutBody") {
+	case 0:
 		pc["payload"] = `{"sub":"{{ .Subject.ID }}","tier":"{{ .Values.tier }}","mode":"answer-without-body"}`
+	case 3:
+		pc["payload"] = `{"sub":"{{ .Subject.ID }}","tier":"{{ .Values.tier }}","mode":"answer-as-yaml"}`
+
+		if family == "remote_authorizer" {
+			// (an expression which calculates with a number of the answer)
+			pc["expressions"] = []any{map[string]any{"expression": "Payload.level + 1 >= 2"}}
+		}
+
+		yamlAnswer = true
+
+		vkit.S.Label("remote_answers_in_yaml")
 	}
 
 	c := caseSpec{Family: family, RemotePath: remotePath, NT: nh+1 >= 2 || nv >= 2}
@@ -459,13 +534,15 @@ func genSubjectHandlerCase(t *rapid.T, family string) caseSpec {
 
 	var hdrA, hdrB []vkit.HeaderKV
 
+	otherEntry, subjectFromRemote := false, false
+
 	if family == "generic_contextualizer" {
 		hdrA = []vkit.HeaderKV{{Name: "X-Tenant", Value: "t1"}, {Name: "Cookie", Value: "region=eu"}}
 		hdrB = hdrA
 	}
 
 	c.Kind = rapid.SampledFrom([]string{"equal", "equal", "subject", "value", "payload", "expressions", "shifted-values", "forwarded-header", "forwarded-cookie",
-		"shifted-names-payload", "forwarded-names"}).Draw(t, "pairKind")
+		"shifted-names-payload", "forwarded-names", "shifted-endpoint", "subject-attributes"}).Draw(t, "pairKind")
 
 	if family == "generic_contextualizer" {
 		// headers and cookies are forwarded independently of each other; the component which differs is always forwarded
@@ -565,6 +642,42 @@ func genSubjectHandlerCase(t *rapid.T, family string) caseSpec {
 
 		c.Kind = "shifted"
 		c.Detail = "name list and payload shifted across their boundary"
+	case "subject-attributes":
+		// the subject comes from an authenticator which asks a remote system; the two subjects have the same id, and attributes
+		// which read the same once quoting, the ends of nested elements or the types of values are ignored. What the cached
+		// mechanism sends depends on the attributes (a header of its endpoint).
+		variant := rapid.SampledFrom([]string{"1", "2", "3", "4", "5", "6"}).Draw(t, "attributeVariant")
+		c.Authn = append(c.Authn, config.Mechanism{ID: "who", Type: "generic", Config: config.MechanismConfig{
+			"identity_info_endpoint":     map[string]any{"url": remote.URL() + "/whoami-attrs", "method": "GET", "headers": map[string]any{"X-Variant": "{{ .AuthenticationData }}"}},
+			"authentication_data_source": []any{map[string]any{"header": "X-Variant"}},
+			"subject":                    map[string]any{"id": "id", "attributes": "attrs"}, "cache_ttl": "0s",
+		}})
+		hdrs["X-Attrs"] = "{{ .Subject.Attributes | toJson }}"
+		hdrA = append(append([]vkit.HeaderKV{}, hdrA...), vkit.HeaderKV{Name: "X-Variant", Value: variant + "a"})
+		hdrB = append(append([]vkit.HeaderKV{}, hdrB...), vkit.HeaderKV{Name: "X-Variant", Value: variant + "b"})
+		subjectFromRemote = true
+		c.Kind = "shifted"
+		c.Detail = "subjects with the same id whose attributes differ in the ends of nested elements or the type of a value: " + attributeVariants[variant+"a"] + " / " + attributeVariants[variant+"b"]
+	case "shifted-endpoint":
+		// two entries of the catalogue which differ in the endpoint only
+		pc2 := config.MechanismConfig{}
+		for k, v := range pc {
+			pc2[k] = v
+		}
+
+		epA, epB, what := shiftedEndpoints(t, pc["endpoint"].(map[string]any))
+		pc["endpoint"], pc2["endpoint"] = epA, epB
+		m2 := config.Mechanism{ID: "m2", Type: typ, Config: pc2}
+
+		if family == "remote_authorizer" {
+			c.Authz = append(c.Authz, m2)
+		} else {
+			c.Ctx = append(c.Ctx, m2)
+		}
+
+		otherEntry = true
+		c.Kind = "shifted"
+		c.Detail = "two catalogue entries, endpoint settings shifted across their boundary: " + what
 	case "shifted-values":
 		overA = map[string]any{"values": map[string]any{"x": "1y2", "y": "3"}}
 		overB = map[string]any{"values": map[string]any{"x": "1", "y": "2y3"}}
@@ -573,6 +686,10 @@ func genSubjectHandlerCase(t *rapid.T, family string) caseSpec {
 	}
 
 	refA, refB := config.MechanismConfig{kindName: "m"}, config.MechanismConfig{kindName: "m"}
+	if otherEntry {
+		refB[kindName] = "m2"
+	}
+
 	if overA != nil {
 		refA["config"] = overA
 	}
@@ -584,6 +701,18 @@ func genSubjectHandlerCase(t *rapid.T, family string) caseSpec {
 	c.ExecA = []config.MechanismConfig{anonRef(subA), refA}
 	c.ExecB = []config.MechanismConfig{anonRef(subB), refB}
 	c.A, c.B = execution{Path: "/a/x", Headers: hdrA}, execution{Path: "/b/x", Headers: hdrB}
+
+	if subjectFromRemote {
+		c.ExecA[0], c.ExecB[0] = config.MechanismConfig{"authenticator": "who"}, config.MechanismConfig{"authenticator": "who"}
+	}
+
+	if yamlAnswer && family == "generic_contextualizer" && !otherEntry {
+		// a later step calculates with a number of what the contextualizer received
+		c.Authz = append(c.Authz, config.Mechanism{ID: "calc", Type: "cel", Config: config.MechanismConfig{
+			"expressions": []any{map[string]any{"expression": "Outputs.m.level + 1 >= 2"}}}})
+		c.ExecA = append(c.ExecA, config.MechanismConfig{"authorizer": "calc"})
+		c.ExecB = append(c.ExecB, config.MechanismConfig{"authorizer": "calc"})
+	}
 
 	// The URL and the headers of the endpoint are templates with access to the outputs of earlier pipeline steps: a
 	// contextualizer without cache runs first, its result (which follows a request header) becomes part of the URL
@@ -636,7 +765,8 @@ func genGenericAuthenticatorCase(t *rapid.T) caseSpec {
 	session, tenantA, regionA := "s-"+rapid.StringMatching("[a-z]{2}").Draw(t, "session"), "t1", "eu"
 	sessionB, tenantB, regionB := session, tenantA, regionA
 
-	c.Kind = rapid.SampledFrom([]string{"equal", "equal", "credential", "forwarded-header", "forwarded-cookie", "other-mechanism"}).Draw(t, "pairKind")
+	c.Kind = rapid.SampledFrom([]string{"equal", "equal", "credential", "forwarded-header", "forwarded-cookie", "other-mechanism", "shifted-endpoint",
+		"other-payload"}).Draw(t, "pairKind")
 
 	// headers and cookies are forwarded independently of each other; the component which differs is always forwarded
 	fwd := rapid.SampledFrom([]string{"both", "headers", "cookies", "none"}).Draw(t, "forwarded")
@@ -670,6 +800,31 @@ func genGenericAuthenticatorCase(t *rapid.T) caseSpec {
 	case "forwarded-cookie":
 		regionB = "us"
 		c.Kind, c.Detail = "one-component", "forwarded cookie value"
+	case "shifted-endpoint":
+		pc2 := config.MechanismConfig{}
+		for k, v := range pc {
+			pc2[k] = v
+		}
+
+		epA, epB, what := shiftedEndpoints(t, pc["identity_info_endpoint"].(map[string]any))
+		pc["identity_info_endpoint"], pc2["identity_info_endpoint"] = epA, epB
+		c.Authn = append(c.Authn, config.Mechanism{ID: "gen2", Type: "generic", Config: pc2})
+		c.ExecB = []config.MechanismConfig{{"authenticator": "gen2"}}
+		c.Kind, c.Detail = "shifted", "two catalogue entries, endpoint settings shifted across their boundary: "+what
+	case "other-payload":
+		// a second entry of the catalogue asks the same endpoint about the same credential, but sends another payload along
+		pc["identity_info_endpoint"] = map[string]any{"url": remote.URL() + "/whoami", "method": "POST", "headers": hdrs}
+		pc["payload"] = `{"realm":"customers"}`
+
+		pc2 := config.MechanismConfig{}
+		for k, v := range pc {
+			pc2[k] = v
+		}
+
+		pc2["payload"] = `{"realm":"staff"}`
+		c.Authn = append(c.Authn, config.Mechanism{ID: "gen2", Type: "generic", Config: pc2})
+		c.ExecB = []config.MechanismConfig{{"authenticator": "gen2"}}
+		c.Kind, c.Detail = "cross-variant", "another catalogue entry for the same endpoint, which sends another payload"
 	case "other-mechanism":
 		// a second entry of the catalogue asks the same endpoint, but looks at what the answer says about the lifetime of the
 		// session - which, for the session used here, is over (the first entry does not care about that)
